@@ -187,6 +187,33 @@ def run(p: Program, rep: Report, tier: str) -> None:
                             rep.observe("asgi is_disconnected() polls receive(); it can swallow a body message (it discards, it does not re-consume) - sanctioned reader")
                         else:
                             rep.violation("R10.1", construct(m, text="reads the request channel"), where(m, bad), f"{m.fq} reads the request channel outside stream(): a message can be consumed twice or stolen from the body")
+        # who consumes stream(): the cached `body` accessor and the multipart parser (which hands the stream itself to the
+        # parse helper). Any other consumer (an urlencoded / JSON path that joins the chunks itself) bypasses the ONE cached body:
+        # a later body / stream raises 'Stream consumed', and concurrent awaiters no longer share one future.
+        n_consumers = 0
+        for ci in [req] + p.subclasses(req):
+            for m in dict.values(ci.methods):
+                for c_ in calls_in(m, deep=True):
+                    if not (isinstance(c_.func, ast.Attribute) and c_.func.attr == "stream" and isinstance(c_.func.value, ast.Name) and c_.func.value.id == "self"):
+                        continue
+                    n_consumers += 1
+                    from ..common import owner_of as _own10, parents as _par10
+                    try:
+                        top = _own10(p, m)
+                    except Exception:
+                        top = m
+                    while top.parent is not None:
+                        top = top.parent
+                    par = next(iter(_par10(c_)), None)
+                    handed_to_parser = isinstance(par, ast.Call) and c_ in par.args and isinstance(p.resolve_call(m, par), FuncInfo) and p.resolve_call(m, par).name in ("parse_stream", "parse_async_stream")
+                    if top.name == "body" or handed_to_parser:
+                        rep.ok("R10.1", f"{side}: stream() is consumed by {m.fq} ({'the cached body accessor' if top.name == 'body' else 'handed to the multipart parse helper'})")
+                    else:
+                        rep.violation("R10.1", construct(m, text="consumes self.stream() outside the cached body"), where(m, c_),
+                                      f"{side}: {m.fq} drains self.stream() itself: the result does not go through the cached `body` (one shared future on ASGI), so a later body / stream / form access raises "
+                                      "'Stream consumed' instead of returning the cached bytes, and two concurrent awaiters race for the receive channel")
+        if n_consumers == 0:
+            rep.undecide("R10.1", f"{side}: nothing in the Request class consumes self.stream()")
         # cached accessors
         for name in ("body", "json", "form"):
             m = req.methods.get(name)
